@@ -126,6 +126,7 @@ pub proof fn lemma_boundary(a: Seq<char>, b: Seq<char>)
     let s = a + b;
     let bytes = encode_utf8(s);
     lemma_blen_concat(a, b);
+    encode_utf8_valid_utf8(s);   // is_char_boundary unfolds only on valid UTF-8
     if a.len() == 0 {
         lemma_blen_empty();
         assert(a =~= Seq::<char>::empty());
